@@ -76,6 +76,16 @@ func c18Bases(r *rand.Rand, nextID *int) []c18Base {
 		{"query": map[string]any{"property": "t", "text": map[string]any{"value": "quick fox", "operator": "containsAny", "limit": 10.0}}, "limit": 10.0},
 		{"query": map[string]any{"property": "_and", "_and": []any{map[string]any{"property": "n", "integer": map[string]any{"value": 3.0, "operator": "greaterThan"}}, map[string]any{"property": "s", "string": map[string]any{"value": "x", "operator": "equals"}}}}, "limit": 20.0, "sort": []any{map[string]any{"property": "n", "descending": true}}, "select": []any{"n"}},
 		{"query": map[string]any{"property": "_id", "string": map[string]any{"value": id(), "operator": "equals"}}, "limit": 1.0},
+		{"query": map[string]any{"property": "_or", "_or": []any{
+			map[string]any{"property": "vf", "vectorFlat": map[string]any{"vector": v(), "operator": "near", "limit": 4.0}},
+			map[string]any{"property": "t", "text": map[string]any{"value": "brown", "operator": "containsAll", "limit": 4.0, "weight": 0.3}}}}, "limit": 8.0},
+		{"query": map[string]any{"property": "_and", "_and": []any{
+			map[string]any{"property": "vv", "vectorVamana": map[string]any{"vector": []any{0.0, 0.6, 0.8}, "operator": "near", "searchSize": 40.0, "limit": 6.0}},
+			map[string]any{"property": "_or", "_or": []any{
+				map[string]any{"property": "vf", "vectorFlat": map[string]any{"vector": v(), "operator": "near", "limit": 6.0}},
+				map[string]any{"property": "n", "integer": map[string]any{"value": 1.0, "operator": "greaterThanOrEquals"}}}}}}, "limit": 6.0},
+		{"query": map[string]any{"property": "t", "text": map[string]any{"value": "fox", "operator": "containsAny", "limit": 5.0, "filter": map[string]any{"property": "_or", "_or": []any{
+			map[string]any{"property": "vf", "vectorFlat": map[string]any{"vector": v(), "operator": "near", "limit": 3.0}}}}}}, "limit": 5.0},
 		{"query": map[string]any{"property": "tags", "stringArray": map[string]any{"value": []any{"a"}, "operator": "containsAll"}}, "limit": 3.0, "offset": 1.0},
 		{"query": map[string]any{"property": "vf", "vectorFlat": map[string]any{"vector": v(), "operator": "near", "limit": 5.0, "filter": map[string]any{"property": "f", "float": map[string]any{"value": 1.0, "operator": "inRange", "endValue": 2.0}}, "weight": 0.5}}, "limit": 5.0},
 	}
